@@ -4,6 +4,7 @@ package main
 
 import (
 	"fmt"
+	"go/constant"
 	"go/token"
 	"go/types"
 	"math"
@@ -966,6 +967,16 @@ func (t *taint) factGives(f cfact, v ssa.Value, facts []cfact, depth int) (nonne
 				nonneg, bounded = nonneg || n, bounded || b
 			}
 		}
+		// the request travels in a local record (`req := createRequest{m: m, …}; if err := req.validate(); …`): a
+		// successful call on the record validates v when v was stored into a field of it and the callee cannot report
+		// success without a validator having accepted that field
+		for _, rc := range recordFieldCalls(f.okCall, v) {
+			g2 := rc.vc.Call.StaticCallee()
+			if rc.j < len(g2.Params) && isIntType(rc.vc.Call.Args[rc.j].Type()) {
+				n, b := t.validated(g2, g2.Params[rc.j], depth+1)
+				nonneg, bounded = nonneg || n, bounded || b
+			}
+		}
 		return
 	}
 	op, o, ok := factAbout(f, v)
@@ -993,6 +1004,84 @@ func (t *taint) factGives(f cfact, v ssa.Value, facts []cfact, depth int) (nonne
 		}
 	}
 	return
+}
+
+type recordCall struct {
+	vc *ssa.Call
+	j  int
+}
+
+// recordFieldCalls: call hands a local record (a struct variable of the caller, by value or by address) to a function g
+// of the module; v was stored into field f of that record. The result lists the calls inside g that are given a read of
+// field f of that parameter and that g cannot report success without (argument position j).
+func recordFieldCalls(call *ssa.Call, v ssa.Value) []recordCall {
+	g := call.Call.StaticCallee()
+	if g == nil || len(g.Blocks) == 0 || !inModule(g) {
+		return nil
+	}
+	var out []recordCall
+	for i, a := range call.Call.Args {
+		if i >= len(g.Params) {
+			continue
+		}
+		var rec *ssa.Alloc
+		switch x := a.(type) {
+		case *ssa.Alloc:
+			rec = x
+		case *ssa.UnOp:
+			if x.Op == token.MUL {
+				rec, _ = x.X.(*ssa.Alloc)
+			}
+		}
+		if rec == nil || rec.Referrers() == nil {
+			continue
+		}
+		for _, ref := range *rec.Referrers() {
+			fa, ok := ref.(*ssa.FieldAddr)
+			if !ok || fa.Referrers() == nil {
+				continue
+			}
+			holdsV := false
+			for _, r2 := range *fa.Referrers() {
+				if st, ok := r2.(*ssa.Store); ok && st.Addr == ssa.Value(fa) && (st.Val == v || structEq(st.Val, v, 0) || sameValue(st.Val, v)) {
+					holdsV = true
+				}
+			}
+			if !holdsV {
+				continue
+			}
+			for _, gb := range g.Blocks {
+				for _, gin := range gb.Instrs {
+					vc, ok := gin.(*ssa.Call)
+					if !ok || vc.Call.StaticCallee() == nil || !inModule(vc.Call.StaticCallee()) {
+						continue
+					}
+					for j, va := range vc.Call.Args {
+						isField := false
+						for _, fx0 := range append(valueRoots(va), va) {
+							switch fx := fx0.(type) {
+							case *ssa.Field:
+								isField = isField || (fx.X == ssa.Value(g.Params[i]) && fx.Field == fa.Field)
+							case *ssa.UnOp:
+								if gfa, ok := fx.X.(*ssa.FieldAddr); ok && fx.Op == token.MUL && gfa.Field == fa.Field {
+									isField = isField || gfa.X == ssa.Value(g.Params[i]) || paramRecordBase(gfa.X) == g.Params[i]
+								}
+							}
+						}
+						if !isField {
+							continue
+						}
+						me := vc
+						if !cannotReturnWithout(g, func(x ssa.Instruction) bool { return x == ssa.Instruction(me) }) {
+							continue
+						}
+						out = append(out, recordCall{vc, j})
+					}
+				}
+			}
+		}
+	}
+	return out
 }
 
 // cellTamed: a load of a local variable that lives in memory (captured by a closure). Its value is one of the values
@@ -2078,7 +2167,24 @@ func ruleJRN5(w *World, r *Report) {
 				inv = p
 			}
 		}
-		if inv == nil || len(findInstrs(fn, callsTo(jw))) == 0 {
+		// the journal write, or the call of a phase function that cannot return without it
+		helpers := w.extractedHelpers(fn)
+		isJournal := func(in ssa.Instruction) bool {
+			if callsTo(jw)(in) {
+				return true
+			}
+			c, ok := in.(*ssa.Call)
+			if !ok || c.Call.StaticCallee() == nil {
+				return false
+			}
+			for _, h := range helpers {
+				if c.Call.StaticCallee() == h && alwaysPerforms(h, callsTo(jw)) {
+					return true
+				}
+			}
+			return false
+		}
+		if inv == nil || len(findInstrs(fn, isJournal)) == 0 {
 			r.Und("JRN-5", name+":shortcut-looks-at-the-inverse", w.Pos(fi.Decl.Pos()), "the inverse-relation parameter or the journal write was not found (shape not recognised)")
 			continue
 		}
@@ -2116,7 +2222,7 @@ func ruleJRN5(w *World, r *Report) {
 				blocked[edgeKey{b, 0}], blocked[edgeKey{b, 1}] = true, true
 			}
 		}
-		found, wit := (pathQuery{fn: fn, target: okRet, avoid: callsTo(jw), blocked: blocked}).find(entryPos(fn))
+		found, wit := (pathQuery{fn: fn, target: okRet, avoid: isJournal, blocked: blocked}).find(entryPos(fn))
 		r.Cond(!found, "JRN-5", name+":shortcut-looks-at-the-inverse", w.Pos(fi.Decl.Pos()), "no success return before the journal write is reachable without a test of the inverse relation", name+" can report success without having journaled (or applied) anything, on a path that never looks at "+inv.Name()+": an early return for a request it considers a no-op, judged from the forward edge alone — a link that names an inverse relation which does not exist yet is acknowledged, and the inverse edge is never created, now or after a restart", w.witness(wit)...)
 	}
 }
@@ -3282,20 +3388,23 @@ func ruleCDC13(w *World, r *Report) {
 		r.Und("CDC-13", "anchor:Engine.replayAOF/DB.AddMetadata", "", "anchor lost")
 		return
 	}
-	fn := w.SSAFunc(fi.Obj)
+	top := w.SSAFunc(fi.Obj)
 	var adds []*ssa.Call
-	for _, in := range findInstrs(fn, func(in ssa.Instruction) bool {
-		c, ok := in.(*ssa.Call)
-		if !ok {
-			return false
+	// (the apply phase may be a function of its own, called by replayAOF alone)
+	for _, f := range append([]*ssa.Function{top}, w.extractedHelpers(top)...) {
+		for _, in := range findInstrs(f, func(in ssa.Instruction) bool {
+			c, ok := in.(*ssa.Call)
+			if !ok {
+				return false
+			}
+			if c.Call.IsInvoke() {
+				return c.Call.Method.Name() == "Add" && strings.HasSuffix(c.Call.Value.Type().String(), "VectorIndex")
+			}
+			o := calleeObj(&c.Call)
+			return o != nil && shortName(o) == "Index.Add" && relPkg(o) == hnswPkg
+		}) {
+			adds = append(adds, in.(*ssa.Call))
 		}
-		if c.Call.IsInvoke() {
-			return c.Call.Method.Name() == "Add" && strings.HasSuffix(c.Call.Value.Type().String(), "VectorIndex")
-		}
-		o := calleeObj(&c.Call)
-		return o != nil && shortName(o) == "Index.Add" && relPkg(o) == hnswPkg
-	}) {
-		adds = append(adds, in.(*ssa.Call))
 	}
 	if len(adds) == 0 {
 		r.Und("CDC-13", "Engine.replayAOF:vector-add", w.Pos(fi.Decl.Pos()), "the Add of replayed vectors was not found (shape not recognised)")
@@ -3303,6 +3412,7 @@ func ruleCDC13(w *World, r *Report) {
 	}
 	for i, c := range adds {
 		cc := c
+		fn := cc.Parent()
 		reach := false
 		var wit []ssa.Instruction
 		fe := failureEdges(fn, cc)
@@ -3366,23 +3476,33 @@ func ruleORD12(w *World, r *Report) {
 	// the one whose contents are copied into the response
 	var respCopySrc ssa.Value // the cell whose contents are copied for the response (the snapshot buffer)
 	appendsTo := map[ssa.Value][]*ssa.Store{}
-	for _, b := range fn.Blocks {
-		for _, in := range b.Instrs {
-			st, ok := in.(*ssa.Store)
-			if !ok {
-				continue
-			}
-			c, ok := st.Val.(*ssa.Call)
-			if !ok {
-				continue
-			}
-			if _, isApp := isBuiltinCall(c, "append"); !isApp || len(c.Call.Args) != 2 {
-				continue
-			}
-			if strings.HasSuffix(c.Type().String(), "[]string") {
-				appendsTo[cellRoot(st.Addr)] = append(appendsTo[cellRoot(st.Addr)], st)
+	for _, f := range append([]*ssa.Function{fn}, closuresOf(fn)...) { // (an arm's body may be a local function of run)
+		for _, b := range f.Blocks {
+			for _, in := range b.Instrs {
+				st, ok := in.(*ssa.Store)
+				if !ok {
+					continue
+				}
+				c, ok := st.Val.(*ssa.Call)
+				if !ok {
+					continue
+				}
+				if _, isApp := isBuiltinCall(c, "append"); !isApp || len(c.Call.Args) != 2 {
+					continue
+				}
+				if strings.HasSuffix(c.Type().String(), "[]string") {
+					appendsTo[cellRoot(st.Addr)] = append(appendsTo[cellRoot(st.Addr)], st)
+				}
 			}
 		}
+	}
+	isKindConst := func(v ssa.Value) bool {
+		cc, isConst := v.(*ssa.Const)
+		if !isConst {
+			return false
+		}
+		nt, isNamed := cc.Type().(*types.Named)
+		return isNamed && nt.Obj().Name() == "commandKind"
 	}
 	// the requeue append: an append to a []string cell whose second operand is a whole slice (not a one-element
 	// variadic pack), reachable from the comparison of the command kind with cmdEndSnapshotRequeue only on its true edge
@@ -3397,6 +3517,53 @@ func ruleORD12(w *World, r *Report) {
 				if _, fromPack := sl.X.(*ssa.Alloc); fromPack {
 					continue // append(buf, x): one element
 				}
+			}
+			// the arm's body is a local function with a "requeue" flag: the append lies on the true edge of a test of a bool
+			// parameter, and every call feeds that parameter with a comparison of the command kind
+			if lf := st.Parent(); lf != fn && lf.Parent() == fn {
+				for _, bb := range lf.Blocks {
+					if len(bb.Instrs) == 0 {
+						continue
+					}
+					iff, isIf := bb.Instrs[len(bb.Instrs)-1].(*ssa.If)
+					if !isIf {
+						continue
+					}
+					p, isParam := iff.Cond.(*ssa.Parameter)
+					if !isParam || !isBoolType(p.Type()) {
+						continue
+					}
+					stI := ssa.Instruction(st)
+					onTrue, _ := (pathQuery{fn: lf, target: func(in ssa.Instruction) bool { return in == stI }}).find(ipos{bb.Succs[0], -1})
+					round, _ := (pathQuery{fn: lf, target: func(in ssa.Instruction) bool { return in == stI }, blocked: map[edgeKey]bool{{bb, 0}: true}}).find(entryPos(lf))
+					if !onTrue || round {
+						continue
+					}
+					idx := -1
+					for i, hp := range lf.Params {
+						if hp == p {
+							idx = i
+						}
+					}
+					fed, nsites := true, 0
+					for _, site := range closureSites(fn, lf) {
+						cs, isCall := site.(*ssa.Call)
+						if !isCall || idx < 0 || idx >= len(cs.Call.Args) {
+							fed = false
+							continue
+						}
+						nsites++
+						bo, isBo := cs.Call.Args[idx].(*ssa.BinOp)
+						if !isBo || bo.Op != token.EQL || !(isKindConst(bo.X) || isKindConst(bo.Y)) {
+							fed = false
+						}
+					}
+					if fed && nsites > 0 {
+						ok, at = true, st.Pos()
+						respCopySrc = src
+					}
+				}
+				continue
 			}
 			// guarded by a test of the command kind
 			for _, bb := range fn.Blocks {
@@ -3665,7 +3832,33 @@ func cannotReturnWithout(g *ssa.Function, direct func(ssa.Instruction) bool) boo
 			failed[e] = true
 		}
 	}
-	skip, _ := (pathQuery{fn: g, target: func(x ssa.Instruction) bool { _, ok := x.(*ssa.Return); return ok }, avoid: direct, blocked: failed}).find(entryPos(g))
+	// a return that hands back the step's own answer, or an error made on the spot (a refusal of g's own, before or after
+	// the step), is not a way round the step: what matters is that g cannot report SUCCESS without it
+	refusal := func(rt *ssa.Return) bool {
+		n := len(rt.Results)
+		if n == 0 || !isErrorType(rt.Results[n-1].Type()) {
+			return false
+		}
+		for _, l := range phiLeaves(retVal(rt, n-1)) {
+			if ex, ok := l.(*ssa.Extract); ok {
+				l = ex.Tuple
+			}
+			switch x := l.(type) {
+			case *ssa.MakeInterface:
+				continue
+			case *ssa.Call:
+				if direct(x) {
+					continue
+				}
+				if o := calleeObj(&x.Call); o != nil && o.Pkg() != nil && (o.Pkg().Path() == "fmt" && o.Name() == "Errorf" || o.Pkg().Path() == "errors" && o.Name() == "New") {
+					continue
+				}
+			}
+			return false
+		}
+		return true
+	}
+	skip, _ := (pathQuery{fn: g, target: func(x ssa.Instruction) bool { rt, ok := x.(*ssa.Return); return ok && !refusal(rt) }, avoid: direct, blocked: failed}).find(entryPos(g))
 	return !skip
 }
 
@@ -4080,7 +4273,11 @@ func ruleLCK10(w *World, r *Report) {
 		nDels := 0
 		ok := true
 		var wit []ssa.Instruction
-		for _, f := range append([]*ssa.Function{fn}, closuresOf(fn)...) {
+		scope := append([]*ssa.Function{fn}, closuresOf(fn)...)
+		for _, h := range w.extractedHelpers(fn) { // (a phase of the delete may be a function of its own)
+			scope = append(append(scope, h), closuresOf(h)...)
+		}
+		for _, f := range scope {
 			dels := findInstrs(f, isDel)
 			nDels += len(dels)
 			if len(dels) > 0 && len(findInstrs(f, isShardLock("Lock"))) == 0 {
@@ -4176,6 +4373,8 @@ func ruleCDC15(w *World, r *Report) {
 	// (a) AddEdge
 	if fi := w.Func("pkg/core", "DB.AddEdge"); fi != nil {
 		fn := w.SSAFunc(fi.Obj)
+		top := fn
+		// the forward half (with the test) may be a function of its own that reports "applied before" to AddEdge
 		isTest := func(in ssa.Instruction) bool {
 			if bo, ok := in.(*ssa.BinOp); ok {
 				for _, c := range cmpField(fn, "CreatedAt") {
@@ -4204,6 +4403,17 @@ func ruleCDC15(w *World, r *Report) {
 				}
 			}
 			return false
+		}
+		if len(findInstrs(fn, isTest)) == 0 {
+			for _, h := range w.extractedHelpers(top) {
+				if h.Signature.Results().Len() == 1 && isBoolType(h.Signature.Results().At(0).Type()) && len(findInstrs(h, isChange)) > 0 {
+					fn = h // (isTest reads fn)
+					if len(findInstrs(h, isTest)) > 0 {
+						break
+					}
+					fn = top
+				}
+			}
 		}
 		tests := findInstrs(fn, isTest)
 		ok := len(tests) > 0 && len(findInstrs(fn, isChange)) > 0
@@ -4258,6 +4468,70 @@ func ruleCDC15(w *World, r *Report) {
 				te, _ := condEdges(v)
 				for _, e := range te {
 					if f, wt := (pathQuery{fn: fn, target: isChange}).find(ipos{e.from.Succs[e.succ], -1}); f {
+						ok, wit = false, wt
+					}
+				}
+			}
+		}
+		if ok && fn != top {
+			// the half with the test answers one constant on the "already there" edge, and AddEdge makes no other change
+			// (directly or through the other half) on the edge where it got that answer
+			var answer *bool
+			for _, t := range tests {
+				v, isV := t.(ssa.Value)
+				if !isV {
+					continue
+				}
+				te, _ := condEdges(v)
+				for _, e := range te {
+					for _, b := range fn.Blocks {
+						rt, isRet := b.Instrs[len(b.Instrs)-1].(*ssa.Return)
+						if !isRet {
+							continue
+						}
+						if reach, _ := (pathQuery{fn: fn, target: func(in ssa.Instruction) bool { return in == ssa.Instruction(rt) }}).find(ipos{e.from.Succs[e.succ], -1}); !reach {
+							continue
+						}
+						c, isC := retVal(rt, 0).(*ssa.Const)
+						if !isC || c.Value == nil {
+							ok = false
+							continue
+						}
+						bv := constant.BoolVal(c.Value)
+						if answer != nil && *answer != bv {
+							ok = false
+						}
+						answer = &bv
+					}
+				}
+			}
+			changesIn := func(f *ssa.Function) bool { return len(findInstrs(f, isChange)) > 0 }
+			otherChange := func(in ssa.Instruction) bool {
+				if isChange(in) {
+					return true
+				}
+				c, isCall := in.(*ssa.Call)
+				return isCall && c.Call.StaticCallee() != nil && c.Call.StaticCallee() != fn && inModule(c.Call.StaticCallee()) && changesIn(c.Call.StaticCallee())
+			}
+			if answer == nil {
+				ok = false
+			} else {
+				for _, cs := range callSitesOf(top, fn) {
+					t, f := condEdges(cs)
+					same := f
+					if *answer {
+						same = t
+					}
+					if len(t)+len(f) == 0 {
+						ok = false
+					}
+					for _, e := range same {
+						if reach, wt := (pathQuery{fn: top, target: otherChange}).find(ipos{e.from.Succs[e.succ], -1}); reach {
+							ok, wit = false, wt
+						}
+					}
+					// and no change before the answer is in
+					if pre, wt := (pathQuery{fn: top, target: otherChange, avoid: func(in ssa.Instruction) bool { return in == ssa.Instruction(cs) }}).find(entryPos(top)); pre {
 						ok, wit = false, wt
 					}
 				}
@@ -4391,27 +4665,34 @@ func ruleGRDpathExhausted(w *World, r *Report) {
 		r.Und("GRD-path-exhausted", "anchor:Engine.FindPath", "", "anchor lost")
 		return
 	}
-	fn := w.SSAFunc(fi.Obj)
+	top := w.SSAFunc(fi.Obj)
 	// the round loop: the outermost loop whose header compares a counter with the maxDepth parameter
 	var header *ssa.BasicBlock
-	for _, b := range fn.Blocks {
-		bo, _, ok := condOf(b)
-		if !ok {
-			continue
+	fn := top
+	for _, cand := range append([]*ssa.Function{top}, w.extractedHelpers(top)...) { // (the search loop may be a phase function of its own)
+		if header != nil {
+			break
 		}
-		isHeader := false
-		for _, p := range b.Preds {
-			if b.Dominates(p) {
-				isHeader = true
+		fn = cand
+		for _, b := range fn.Blocks {
+			bo, _, ok := condOf(b)
+			if !ok {
+				continue
 			}
-		}
-		if !isHeader {
-			continue
-		}
-		for _, side := range []ssa.Value{bo.X, bo.Y} {
-			for _, rt := range append(valueRoots(side), side) {
-				if p, ok := rt.(*ssa.Parameter); ok && isIntType(p.Type()) {
-					header = b
+			isHeader := false
+			for _, p := range b.Preds {
+				if b.Dominates(p) {
+					isHeader = true
+				}
+			}
+			if !isHeader {
+				continue
+			}
+			for _, side := range []ssa.Value{bo.X, bo.Y} {
+				for _, rt := range append(valueRoots(side), side) {
+					if p, ok := rt.(*ssa.Parameter); ok && isIntType(p.Type()) {
+						header = b
+					}
 				}
 			}
 		}
